@@ -37,6 +37,10 @@ static void st(const char *op,int rc,vorbis_info *vi){
          hi->bitrate_min,hi->bitrate_av,hi->bitrate_max,hi->bitrate_reservoir,
          hi->set_in_stone?ci->blocksizes[0]:0,hi->set_in_stone?ci->blocksizes[1]:0);
 }
+static int stone_of(vorbis_info *vi){ codec_setup_info *ci=vi->codec_setup; return ci&&ci->hi.set_in_stone; }
+static void frozen(const char *op,int num,int was_stone,int rc){
+  if(was_stone&&rc!=OV_EINVAL)printf("prop frozen FAIL set request %s 0x%x returned %d after vorbis_encode_setup_init (must be refused with OV_EINVAL)\n",op,num,rc);
+}
 static void fill(float **buf,int ch,long n,int kind,long pos){
   for(int c=0;c<ch;c++)for(long i=0;i<n;i++){
     double t=(double)(pos+i); float x=0;
@@ -131,7 +135,7 @@ int main(int argc,char **argv){
       int rc=vorbis_encode_setup_init(&vi); st("I",rc,&vi);
       if(rc!=0&&rc!=OV_EINVAL&&rc!=OV_EIMPL)printf("prop code FAIL I returned %d\n",rc);
     }else if(!strcmp(tok[0],"C2S")){
-      int rc;
+      int rc,ws=stone_of(&vi);
       if(!strcmp(tok[1],"null"))rc=vorbis_encode_ctl(&vi,OV_ECTL_RATEMANAGE2_SET,NULL);
       else{
         struct ovectl_ratemanage2_arg a; memset(&a,0,sizeof a);
@@ -139,26 +143,27 @@ int main(int argc,char **argv){
         a.bitrate_average_damping=dbits(tok[6]); a.bitrate_limit_reservoir_bits=atol(tok[7]); a.bitrate_limit_reservoir_bias=dbits(tok[8]);
         rc=vorbis_encode_ctl(&vi,OV_ECTL_RATEMANAGE2_SET,&a);
       }
-      st("C2S",rc,&vi);
+      st("C2S",rc,&vi); frozen("RATEMANAGE2_SET",OV_ECTL_RATEMANAGE2_SET,ws,rc);
       if(rc!=0&&rc!=OV_EINVAL&&rc!=OV_EIMPL)printf("prop code FAIL C2S returned %d\n",rc);
     }else if(!strcmp(tok[0],"C2G")){
       struct ovectl_ratemanage2_arg a; memset(&a,0,sizeof a);
       int rc=vorbis_encode_ctl(&vi,OV_ECTL_RATEMANAGE2_GET,!strcmp(tok[1],"null")?NULL:&a);
       st("C2G",rc,&vi);
     }else if(!strcmp(tok[0],"CPL")){
-      int v=atoi(tok[1]); int rc=vorbis_encode_ctl(&vi,OV_ECTL_COUPLING_SET,&v); st("CPL",rc,&vi);
+      int v=atoi(tok[1]); int ws=stone_of(&vi); int rc=vorbis_encode_ctl(&vi,OV_ECTL_COUPLING_SET,&v); st("CPL",rc,&vi); frozen("COUPLING_SET",OV_ECTL_COUPLING_SET,ws,rc);
       if(rc!=0&&rc!=OV_EINVAL&&rc!=OV_EIMPL)printf("prop code FAIL CPL returned %d\n",rc);
     }else if(!strcmp(tok[0],"CO")){
       int num=atoi(tok[1]); union { double d; int i; char pad[64]; } a; memset(&a,0,sizeof a);
       if(num==OV_ECTL_COUPLING_GET)a.i=0; else a.d=dbits(tok[2]);
-      int rc=vorbis_encode_ctl(&vi,num,&a); st("CO",rc,&vi);
+      int ws=stone_of(&vi); int rc=vorbis_encode_ctl(&vi,num,&a); st("CO",rc,&vi);
+      if(num==OV_ECTL_LOWPASS_SET||num==OV_ECTL_IBLOCK_SET)frozen("LOWPASS/IBLOCK_SET",num,ws,rc);
       if(rc!=0&&rc!=OV_EINVAL&&rc!=OV_EIMPL)printf("prop code FAIL CO %d returned %d\n",num,rc);
     }else if(!strcmp(tok[0],"CN")){
       int rc=vorbis_encode_ctl(NULL,atoi(tok[1]),NULL);
       if(rc!=OV_EINVAL)printf("prop code FAIL ctl on a NULL info returned %d\n",rc);
       st("CN",rc,&vi);
     }else if(!strcmp(tok[0],"CD")){
-      int num=atoi(tok[1]),rc;
+      int num=atoi(tok[1]),rc,ws=stone_of(&vi);
       if(!strcmp(tok[2],"null"))rc=vorbis_encode_ctl(&vi,num,NULL);
       else{
         struct ovectl_ratemanage_arg a; memset(&a,0,sizeof a);
@@ -167,6 +172,7 @@ int main(int argc,char **argv){
         rc=vorbis_encode_ctl(&vi,num,&a);
       }
       st("CD",rc,&vi);
+      if(num==OV_ECTL_RATEMANAGE_SET||num==OV_ECTL_RATEMANAGE_AVG||num==OV_ECTL_RATEMANAGE_HARD)frozen("RATEMANAGE_SET/AVG/HARD",num,ws,rc);
       if(rc!=0&&rc!=OV_EINVAL&&rc!=OV_EIMPL)printf("prop code FAIL CD %d returned %d\n",num,rc);
     }else if(!strcmp(tok[0],"E")){
       codec_setup_info *ci=vi.codec_setup;
